@@ -220,20 +220,22 @@ class Tensor(Funsor, metaclass=TensorMeta):
 
         # Handle diagonal variable substitution, including renaming onto a
         # name that remains occupied by an input that is not itself renamed.
-        name_counts = Counter(
-            v.name for v in subs.values() if isinstance(v, (Variable, Slice))
-        )
-        name_counts.update(
-            k
-            for k in self.inputs
-            if not isinstance(subs.get(k), (Variable, Slice))
-        )
+        # Materializing a renaming leaves its input in place, which can in turn
+        # collide with another renaming, so iterate to a fixed point.
+        renamed = {k for k, v in subs.items() if isinstance(v, (Variable, Slice))}
+        while renamed:
+            name_counts = Counter(subs[k].name for k in renamed)
+            name_counts.update(k for k in self.inputs if k not in renamed)
+            collisions = {k for k in renamed if name_counts[subs[k].name] > 1}
+            if not collisions:
+                break
+            renamed -= collisions
         subs = OrderedDict(
             (
                 k,
                 (
                     self.materialize(v)
-                    if isinstance(v, (Variable, Slice)) and name_counts[v.name] > 1
+                    if isinstance(v, (Variable, Slice)) and k not in renamed
                     else v
                 ),
             )
